@@ -84,6 +84,20 @@ TEXT = {
             "Runtime monitoring of 320 (quick) / 5000 (thorough) path() calls with hostile arguments.",
             "'Always terminates' is restated as bounded progress (1500 outer steps); budget exhaustion without a stuck "
             "schedule is inconclusive. One open finding (dynamic mode, empty selection) is classified by mechanism."),
+    "C15": ("contract on every Douglas._leaf_binning return (probability vectors), post-fit contract (leaf count, masked "
+            "columns perturbed -> bit-identical predictions, low-temperature cell constancy on the fitted object) and "
+            "find_active_points vs its definition on generated query sets",
+            "Runtime monitoring: 320 fits x 20 active-point queries, ~18k cell comparisons, ~9k binning calls per quick run.",
+            "Cell of a sample = number of cut points below its value; points closer than 0.05 to a cut are not used."),
+    "C17": ("invariant at the optimiser hook (every parameter finite after every step; first offending step/array "
+            "recorded) + post-call finiteness contract over the property's degenerate families",
+            "Runtime monitoring of 900 (quick) / 18k (thorough) fits and paths across 18 estimators x 12 degenerate families.",
+            "One open finding (SGD on the RIM/KernelRIM quadratic penalty beyond its stability limit) classified by a "
+            "structural predicate; kernels undefined on the data are not generated."),
+    "C18": ("metamorphic monitor on predict / predict_proba: whole array vs subsets, permutations, single and repeated "
+            "rows; training-set probabilities vs the last forward pass of fit captured by an _infer hook",
+            "Runtime monitoring: 640 fits x 8 query transformations per quick run over the 15 inductive estimators.",
+            "1e-9 absolute on probabilities (BLAS blocking); labels compared where the top-two margin exceeds 1e-9."),
 }
 
 TECH_DEFAULT = "runtime monitoring: contracts/invariants at hooked call sites over generated workloads"
